@@ -57,6 +57,8 @@ type glTarget struct {
 	retLean   string // Lean result type (required)
 	natInts   bool   // Go ints of this function are bit sets / counters: translate as Nat
 	externs   map[string]glExtern
+	// locals: variables declared BEFORE a block that the block assigns (name -> Go type); they start at their zero value
+	locals map[string]string
 	// zeros: the zero value (Lean term) of Go struct types this target declares variables or named results of
 	zeros map[string]string
 	// Go types of parameters whose syntactic type the translator cannot use directly
@@ -836,7 +838,7 @@ func (c *glCtx) hasEffectShallow(st ast.Stmt) bool {
 		})
 	}
 	switch x := st.(type) {
-	case *ast.AssignStmt, *ast.ExprStmt, *ast.ReturnStmt, *ast.IncDecStmt, *ast.DeclStmt:
+	case *ast.AssignStmt, *ast.ExprStmt, *ast.ReturnStmt, *ast.IncDecStmt, *ast.DeclStmt, *ast.GoStmt:
 		check(x)
 	case *ast.IfStmt:
 		check(x.Cond)
@@ -1087,6 +1089,13 @@ func (c *glCtx) stmts(list []ast.Stmt, d int) string {
 		return c.ifStmt(x, rest, d)
 	case *ast.SwitchStmt:
 		return c.stmts(append([]ast.Stmt{c.switchToIf(x)}, rest...), d)
+	case *ast.GoStmt:
+		// `go <effect call>`: the effect is recorded where the goroutine is started (it runs asynchronously and is not
+		// awaited by the function: the trace says that it was started, not when it completes)
+		if call, ex, ok := c.effectOf(x.Call); ok {
+			return c.traceUpdate(call, ex, d) + c.stmts(rest, d)
+		}
+		c.fail(x, "go statement")
 	case *ast.DeferStmt:
 		// only `defer <effect call>` at the top level of the function (not in a loop or branch): the effect is
 		// appended to the trace at every return that follows
@@ -1373,6 +1382,22 @@ func (c *glCtx) ifStmt(x *ast.IfStmt, rest []ast.Stmt, d int) string {
 		y.Init = nil
 		return c.stmts(append([]ast.Stmt{x.Init, &y}, rest...), d)
 	}
+	// `if f(…) {` / `if !f(…) {` where f is an effect external: the effect is recorded before the condition is evaluated
+	prefix := ""
+	{
+		inner := x.Cond
+		if u, ok := inner.(*ast.UnaryExpr); ok && u.Op == token.NOT {
+			inner = u.X
+		}
+		if call, ok := inner.(*ast.CallExpr); ok {
+			if ex, isExt := c.t.externs[c.p.str(call.Fun)]; isExt && ex.effect != "" {
+				prefix = c.traceUpdate(call, ex, d)
+				saved := c.effectCall
+				c.effectCall = call
+				defer func() { c.effectCall = saved }()
+			}
+		}
+	}
 	cond, _ := c.expr(x.Cond)
 	var elseList []ast.Stmt
 	if x.Else != nil {
@@ -1419,7 +1444,7 @@ func (c *glCtx) ifStmt(x *ast.IfStmt, rest []ast.Stmt, d int) string {
 			return c.stmts(list, d+2)
 		}
 		t, e := val(x.Body.List), val(elseList)
-		return "match (if " + cond + " then" + ind(d+2) + t + ind(d+1) + "else" + ind(d+2) + e + ") with" + ind(d) + "| " + tuple(vars) + " =>" + ind(d+1) + c.stmts(rest, d+1)
+		return prefix + "match (if " + cond + " then" + ind(d+2) + t + ind(d+1) + "else" + ind(d+2) + e + ") with" + ind(d) + "| " + tuple(vars) + " =>" + ind(d+1) + c.stmts(rest, d+1)
 	}
 	thenLeaves := terminates(x.Body)
 	elseLeaves := x.Else != nil && terminates(x.Else)
@@ -1439,7 +1464,7 @@ func (c *glCtx) ifStmt(x *ast.IfStmt, rest []ast.Stmt, d int) string {
 			return c.stmts(list, d+1)
 		}
 		pat := tuple(vars)
-		return "let " + k + " := fun " + pat + " =>" + ind(d+1) + restS + ";" + ind(d) +
+		return prefix + "let " + k + " := fun " + pat + " =>" + ind(d+1) + restS + ";" + ind(d) +
 			"if " + cond + " then" + ind(d+1) + br(x.Body.List) + ind(d) + "else" + ind(d+1) + br(elseList)
 	}
 	thenS := branch(x.Body.List, thenLeaves)
@@ -1452,7 +1477,7 @@ func (c *glCtx) ifStmt(x *ast.IfStmt, rest []ast.Stmt, d int) string {
 	if thenLeaves && elseLeaves && len(rest) > 0 {
 		// unreachable rest: Go would reject most such code; keep what is reachable
 	}
-	return "if " + cond + " then" + ind(d+1) + thenS + ind(d) + "else" + ind(d+1) + elseS
+	return prefix + "if " + cond + " then" + ind(d+1) + thenS + ind(d) + "else" + ind(d+1) + elseS
 }
 
 // typeSwitch: `switch k := x.(type) { case T: … default: … }` over a value whose dynamic types are a configured Lean
@@ -1929,6 +1954,15 @@ func (c *glCtx) block(fd *ast.FuncDecl) string {
 		c.nres = 0
 		c.declare("trace_", "[]effect")
 		pre := "let trace_ := ([] : List " + c.t.traceLean + ");" + ind(1)
+		var lnames []string
+		for n := range c.t.locals {
+			lnames = append(lnames, n)
+		}
+		sort.Strings(lnames)
+		for _, n := range lnames {
+			c.declare(n, c.t.locals[n])
+			pre += "let " + leanIdent(n) + " := " + c.zero(fd, c.t.locals[n]) + ";" + ind(1)
+		}
 		c.reach = c.t.blockReach
 		body := c.stmts(list, 1)
 		return "def " + c.t.name + " " + c.t.binders + " : " + c.t.retLean + " :=\n  " + pre + body + "\n"
